@@ -10,10 +10,15 @@ Decided (structural, every byte string / every decoded message):
  R2 K2  in get_sync_commands every state mutation and the `Some(commands)` result are
         dominated by the session-id equality edge; the commands are accepted only on the
         `response_index == next_message_index` edge and after the state test.
+ R3 K2  the belief behind SyncResponder::session_id()'s `assume("session id is set")` (called by poll, get_next and
+        push in every non-idle state): SyncResponder::dispatch moves `state` only where `session_id` is known to
+        be Some - every path from its entry to a `self.state = ..` store passes a `self.session_id = Some(..)` store
+        or the not-None edge of a test of that field.
 Not decided: panics inside postcard/heapless/serde (trusted base); panics that depend on
 the replica's own storage contents below the Storage/Segment traits' file-backed
 implementation (not a function of the received bytes; listed as boundary)."""
-from rules.core import k4
+from rules.core.facts import Place
+from rules.core import k4, pat
 
 CRATES = ["aranya_runtime"]
 THOROUGH_CONFIGS = ["lowmem"]   # thorough tier: the same rules on the low-mem-usage build
@@ -84,10 +89,34 @@ BUG_AUDIT = {
 }
 
 
+def session_id_belief(F, rep):
+    """R3: `session_id()` is audited as unreachable-when-None; that holds only if no peer message can move the
+    responder out of Idle without the session id being recorded first."""
+    d = F.fn("aranya_runtime::sync::responder::SyncResponder::dispatch")
+    st = d.field_stores("state")
+    through = {s.bb for s in d.field_stores("session_id")}
+    for c in d.calls:
+        if c.name in ("is_none", "is_some") and "field:session_id" in d.origins(c.args[0], through_calls=()):
+            oe = d.outcome_edges(c)
+            e = oe.get("false") if c.name == "is_none" else oe.get("true")
+            if e is not None:
+                through.add(e[1])
+    for b, arms, other, dst in d.discr_switches("option::Option"):
+        src = Place(dst.rv[1])
+        if "session_id" in src.fields() and "Some" in arms:
+            through.add(arms["Some"])
+    ok = bool(st) and bool(through) and all(pat.must_pass(d, 0, through, exits=[s.bb]) for s in st)
+    rep.check(ok, "dispatch|state-moves-only-with-session-id", "K2 guarded-by",
+              "all %d `self.state = ..` stores in SyncResponder::dispatch are reached only after session_id was set or found set" % len(st),
+              "SyncResponder::dispatch can change `state` on a path where session_id is still None: the next poll() calls session_id(), whose "
+              "`assume(\"session id is set\")` then fails (a panic under debug assertions, a Bug error and no EndSession otherwise) - one unsupported first message from a peer does it", d.site())
+
+
 def run(F, rep, tier):
     rep.explanation = __doc__
     entries = [F.fn(e) for e in ENTRIES]
     k4.run_k4(F, rep, entries, AUDIT, BUG_AUDIT, scope=SCOPE)
+    session_id_belief(F, rep)
 
     g = F.fn("aranya_runtime::sync::requester::SyncRequester::get_sync_commands")
     cs = g.cmp_switches()
